@@ -131,15 +131,19 @@ func c07(c *Ctx) {
 		}
 		switch m.shape(w, "bucket", "replacements") {
 		case shapeBoundedPush:
-			call, _ := boundedPush(w.Val)
-			maxArg := call.Call.Args[len(call.Call.Args)-1]
+			call, isCall := boundedPush(w.Val)
+			var maxArg, removed ssa.Value
+			if isCall {
+				maxArg = call.Call.Args[len(call.Call.Args)-1]
+			} else if ip := inlinePush(w.Val); ip != nil {
+				maxArg, removed = ip.max, ip.removed
+			}
 			n, isC := core.ConstInt(maxArg)
 			r.Check(isC && n == 10, "R2.replacements-growth", m.key(w, "bounded-push"), p.Pos(w.Store.Pos()),
 				"replacements grow only through a push bounded by len(list) < 10", fmt.Sprintf("replacement list bound is %v, expected the constant 10", n))
 			// displaced node gives its IP back
-			var removed ssa.Value
-			if refs := call.Referrers(); refs != nil {
-				for _, rf := range *refs {
+			if isCall && call.Referrers() != nil {
+				for _, rf := range *call.Referrers() {
 					if ex, ok := rf.(*ssa.Extract); ok && ex.Index == 1 {
 						removed = ex
 					}
